@@ -92,10 +92,16 @@ def r06_2_encode_tuple(ctx):
     maxlen = 4 if ctx.tier == "quick" else 5
     seqs = [""] + ["".join(p) for L in range(1, maxlen + 1) for p in itertools.product("BUSb" if L > 3 else "BUbSDA", repeat=L)]
     seqs += ["B" * 9, "B" * 8 + "U", "BBSSS", "BBSS", "SBBBBBBBBBS", "UBBBUBS", "SUSUS"]
-    for sq in seqs:
+    # the same value object may be given for several members (t.set(s, s)): members are positions, not objects
+    seqs = [(sq, False) for sq in seqs] + [(sq, True) for sq in ("SS", "SUS", "SSU", "DSD", "SSS", "USBS")]
+    for sq, aliased in seqs:
         members = [kinds[c] for c in sq]
+        rep = {i: (sq.index(c) if aliased and c in "SD" else i) for i, c in enumerate(sq)}
         vals = []
         for i, m in enumerate(members):
+            if rep[i] != i:
+                vals.append(vals[rep[i]])
+                continue
             sp = W.spec(m)
             v = Sym(f"v{i}", attrs={"$isa": {"BaseType"} | ({"Bool"} if m == ("bool",) else set())})
             v.methods["type_spec"] = (lambda sp: lambda: sp)(sp)
@@ -129,7 +135,7 @@ def r06_2_encode_tuple(ctx):
                 return Rec("call", Rec("name", "boolrun"), [[v.name for v in vs]], {})
             raise Unknown()
 
-        construct = f"_encode_tuple[{sq or 'empty'}]"
+        construct = f"_encode_tuple[{sq or 'empty'}{', one object for equal letters' if aliased else ''}]"
         try:
             val, _ = W.run(f.node, {"values": list(vals)}, extra, f.fq)
         except Raised as r:
@@ -172,7 +178,7 @@ def r06_2_encode_tuple(ctx):
                 if not (isinstance(h, Rec) and h.is_call("boolrun") and h.args[0] == hw[1]):
                     problems.append(f"head {strip(h)[:50]} where the bool run {hw[1]} is expected (maximal runs, in order)")
             elif hw[0] == "static":
-                if strip(h) != f"enc{hw[1]}":
+                if strip(h) != f"enc{rep[hw[1]]}":
                     problems.append(f"head {strip(h)[:50]} where the encoding of member {hw[1]} is expected")
             else:
                 k = hw[1]
@@ -224,7 +230,7 @@ def r06_2_encode_tuple(ctx):
                     raise AnalysisError(f"{f.fq}: unrecognised element {txt[:60]} in the head of a dynamic member")
 
                 run(h)
-                earlier = [f"enc{j}" for j in dyn_idx if j < k]
+                earlier = [f"enc{rep[j]}" for j in dyn_idx if j < k]
                 want_off = Lin(H, earlier)
                 offsets[k] = emitted
                 if emitted != want_off:
@@ -234,8 +240,8 @@ def r06_2_encode_tuple(ctx):
             if len(tail) == 1 and strip(tail[0]).endswith(".load"):
                 th = state.get(strip(tail[0]).rsplit(".", 1)[0])
                 th = th if isinstance(th, list) else [th]
-                if th != [f"enc{j}" for j in dyn_idx]:
-                    problems.append(f"the concatenated tail is {th}; expected the encodings of the dynamic members in order {[f'enc{j}' for j in dyn_idx]}")
+                if th != [f"enc{rep[j]}" for j in dyn_idx]:
+                    problems.append(f"the concatenated tail is {th}; expected the encodings of the dynamic members in order {[f'enc{rep[j]}' for j in dyn_idx]}")
             else:
                 problems.append(f"the tail part is {[strip(x)[:40] for x in tail]}")
         ctx.check(not problems, "R06.2", construct, "; ".join(problems[:3]), f.where, fact={"head_length": H, "offsets": {k: repr(v) for k, v in offsets.items()}})
